@@ -74,6 +74,56 @@ def mutate(rng, v, T, depth=0):
     return f"{f._name} = ..."
 
 
+# look-alike definitions for two cstruct objects: the same structure text and type names, other enum members / typedef targets / configuration;
+# what each object has to give is worked out here from the text, not taken from another cstruct object
+LOOKALIKES = [
+    (("enum K : uint8 { K_A = 1, K_B = 2 }; struct main { K k; uint8 f; uint16 s; };", {"endian": "<"}, {"k": "K_B", "f": 7, "s": 0x3412}),
+     ("enum K : uint8 { K_X = 1, K_Y = 2, K_Z = 3 }; struct main { K k; uint8 f; uint16 s; };", {"endian": ">"}, {"k": "K_Y", "f": 7, "s": 0x1234})),
+    (("typedef uint16 T; struct main { T a; uint8 b; uint8 c; };", {"endian": "<"}, {"a": 0x0702, "b": 0x12, "c": 0x34}),
+     ("typedef int16 T; struct main { T a; uint8 b; uint8 c; };", {"endian": ">"}, {"a": 0x0207, "b": 0x12, "c": 0x34})),
+    (("typedef uint16 T; struct main { T a; T b; };", {"endian": "<"}, {"a": 0xFFFE, "b": 0x8001}),
+     ("typedef int16 T; struct main { T a; T b; };", {"endian": "<"}, {"a": -2, "b": -32767})),
+    (("flag G : uint8 { G_R = 1, G_W = 2 }; struct main { G g; char c[3]; };", {"endian": "<"}, {"g": "G_W", "c": b"\x07\x12\x34"}),
+     ("flag G : uint8 { G_X = 1, G_Y = 2 }; struct main { G g; char c[3]; };", {"endian": "<"}, {"g": "G_Y", "c": b"\x07\x12\x34"})),
+    (("struct main { uint8 *p; uint8 t; };", {"endian": "<", "pointer": "uint16"}, {"p": 0x0702, "t": 0x12}),
+     ("struct main { uint8 *p; uint8 t; };", {"endian": ">", "pointer": "uint16"}, {"p": 0x0207, "t": 0x12})),
+]
+LOOKALIKE_DATA = {0: bytes([2, 7, 0x12, 0x34]), 1: bytes([2, 7, 0x12, 0x34]), 2: bytes([0xFE, 0xFF, 0x01, 0x80]), 3: bytes([2, 7, 0x12, 0x34]), 4: bytes([2, 7, 0x12, 0x34])}
+
+
+def lookalike_problems() -> list[dict]:
+    from dissect.cstruct import cstruct
+
+    probs = []
+    for gi, pair in enumerate(LOOKALIKES):
+        data = LOOKALIKE_DATA[gi]
+        for order in ((0, 1), (1, 0)):
+            for compiled in (False, True):
+                objs = []
+                for idx in order:
+                    text, kw, want = pair[idx]
+                    cs = cstruct(**kw)
+                    cs.load(text, compiled=compiled)
+                    objs.append((cs, text, kw, want))
+                    cs.main(data)                                        # parse once as soon as the object exists (warm caches)
+                for cs, text, kw, want in objs + objs[::-1]:
+                    v = cs.main(data)
+                    for name, w in want.items():
+                        got = getattr(v, name)
+                        if isinstance(w, str):
+                            cls = cs.resolve(text.split()[1])
+                            bad = getattr(got, "name", None) != w or type(got) is not cls
+                            shown = f"{type(got).__name__}.{getattr(got, 'name', got)} (class of this cstruct object: {type(got) is cls})"
+                        else:
+                            bad = (bytes(got) if isinstance(w, bytes) else int(got)) != w
+                            shown = repr(got)
+                        if bad:
+                            probs.append({"what": "parse result of one cstruct object depends on a look-alike definition of another", "definitions": [o[1] for o in objs],
+                                          "configurations": [o[2] for o in objs], "compiled": compiled, "data": data.hex(), "object": text, "member": name,
+                                          "observed": shown, "expected": repr(w)})
+    return probs
+
+
 def check(run: Run) -> None:
     from dissect.cstruct import cstruct
 
@@ -203,6 +253,11 @@ def check(run: Run) -> None:
                 run.report(sig, {"definition": text, "ops": [{"op": "history", "history": log[-12:], **problem}]})
                 break
 
+    for prob in lookalike_problems()[:6]:
+        failures += 1
+        n_ops += 1
+        run.report("C14/look-alike-definitions", {"definition": prob["object"], "ops": [{"op": "two cstruct objects, look-alike definitions", **prob}]})
+    n_ops += 4 * 2 * 2 * len(LOOKALIKES)
     for prob in F.default_sharing_problems():
         failures += 1
         n_ops += 1
